@@ -3,6 +3,8 @@
 #pragma once
 #include "wire_iface.h"
 #include <tins/rsn_information.h>
+#include <stdexcept>
+#include <initializer_list>
 namespace wire {
 
 inline bool wifi_hex(const std::string& s, size_t n, bytes& out) {
@@ -70,6 +72,84 @@ inline void dot11_bar_dump(FieldDump& f, const T& b) {
     f.num("bar_control", b.bar_control()).num("start_sequence", b.start_sequence()).num("fragment_number", b.fragment_number());
 }
 
+// ---- typed getters of Dot11ManagementFrame as canonical text (mirrors Tagged.typedStr in the Lean model) ----
+inline std::string wifi_us(std::initializer_list<unsigned long long> xs) {
+    std::ostringstream o; bool f = true;
+    for (unsigned long long x : xs) { if (!f) o << "_"; f = false; o << x; }
+    return o.str();
+}
+inline std::string wifi_pairs_str(const std::vector<std::pair<uint8_t, uint8_t> >& ps) {
+    if (ps.empty()) return "-";
+    std::ostringstream o;
+    for (size_t i = 0; i < ps.size(); ++i) { if (i) o << ","; o << unsigned(ps[i].first) << "." << unsigned(ps[i].second); }
+    return o.str();
+}
+template <typename V>
+inline std::string wifi_list_str(const V& xs, const char* sep) {
+    if (xs.empty()) return "-";
+    std::ostringstream o;
+    for (size_t i = 0; i < xs.size(); ++i) { if (i) o << sep; o << (unsigned long long)xs[i]; }
+    return o.str();
+}
+inline std::string wifi_rates_str(const Dot11ManagementFrame::rates_type& r) {
+    std::vector<unsigned> v;
+    for (size_t i = 0; i < r.size(); ++i) v.push_back(unsigned(r[i] * 2));
+    return wifi_list_str(v, ",");
+}
+template <typename F>
+inline void wifi_typed_item(std::string& out, const char* name, F f) {
+    std::string v;
+    try { v = f(); }
+    catch (const option_not_found&) { return; }
+    catch (const std::exception& e) { v = "!" + vh::exc_name(e); }
+    if (!out.empty()) out += "|";
+    out += std::string(name) + ":" + v;
+}
+inline std::string wifi_typed(const Dot11ManagementFrame& m) {
+    typedef Dot11ManagementFrame M;
+    std::string out;
+    wifi_typed_item(out, "rsn_information", [&] {
+        RSNInformation r = m.rsn_information();
+        std::vector<uint32_t> pw(r.pairwise_cyphers().begin(), r.pairwise_cyphers().end()), ak(r.akm_cyphers().begin(), r.akm_cyphers().end());
+        return wifi_us({r.version(), uint32_t(r.group_suite())}) + "_" + wifi_list_str(pw, "+") + "_" + wifi_list_str(ak, "+") + "_" + wifi_us({r.capabilities()});
+    });
+    wifi_typed_item(out, "ssid", [&] { std::string s = m.ssid(); return vh::to_hex((const uint8_t*)s.data(), s.size()); });
+    wifi_typed_item(out, "supported_rates", [&] { return wifi_rates_str(m.supported_rates()); });
+    wifi_typed_item(out, "extended_supported_rates", [&] { return wifi_rates_str(m.extended_supported_rates()); });
+    wifi_typed_item(out, "qos_capability", [&] { return wifi_us({m.qos_capability()}); });
+    wifi_typed_item(out, "power_capability", [&] { std::pair<uint8_t, uint8_t> p = m.power_capability(); return wifi_us({p.first, p.second}); });
+    wifi_typed_item(out, "supported_channels", [&] { return wifi_pairs_str(m.supported_channels()); });
+    wifi_typed_item(out, "request_information", [&] { M::request_info_type v = m.request_information(); return vh::to_hex(v); });
+    wifi_typed_item(out, "fh_parameter_set", [&] { M::fh_params_set v = m.fh_parameter_set(); return wifi_us({v.dwell_time, v.hop_set, v.hop_pattern, v.hop_index}); });
+    wifi_typed_item(out, "ds_parameter_set", [&] { return wifi_us({m.ds_parameter_set()}); });
+    wifi_typed_item(out, "cf_parameter_set", [&] { M::cf_params_set v = m.cf_parameter_set(); return wifi_us({v.cfp_count, v.cfp_period, v.cfp_max_duration, v.cfp_dur_remaining}); });
+    wifi_typed_item(out, "ibss_parameter_set", [&] { return wifi_us({m.ibss_parameter_set()}); });
+    wifi_typed_item(out, "ibss_dfs", [&] { M::ibss_dfs_params v = m.ibss_dfs(); return hex_of(v.dfs_owner) + "_" + wifi_us({v.recovery_interval}) + "_" + wifi_pairs_str(v.channel_map); });
+    wifi_typed_item(out, "country", [&] {
+        M::country_params v = m.country();
+        std::ostringstream o;
+        o << vh::to_hex((const uint8_t*)v.country.data(), v.country.size()) << "_";
+        if (v.first_channel.empty()) o << "-";
+        for (size_t i = 0; i < v.first_channel.size(); ++i) {
+            if (i) o << ",";
+            o << unsigned(v.first_channel[i]) << "." << unsigned(v.number_channels.at(i)) << "." << unsigned(v.max_transmit_power.at(i));
+        }
+        return o.str();
+    });
+    wifi_typed_item(out, "fh_parameters", [&] { std::pair<uint8_t, uint8_t> p = m.fh_parameters(); return wifi_us({p.first, p.second}); });
+    wifi_typed_item(out, "fh_pattern_table", [&] { M::fh_pattern_type v = m.fh_pattern_table(); return wifi_us({v.flag, v.number_of_sets, v.modulus, v.offset}) + "_" + vh::to_hex(v.random_table); });
+    wifi_typed_item(out, "power_constraint", [&] { return wifi_us({m.power_constraint()}); });
+    wifi_typed_item(out, "channel_switch", [&] { M::channel_switch_type v = m.channel_switch(); return wifi_us({v.switch_mode, v.new_channel, v.switch_count}); });
+    wifi_typed_item(out, "quiet", [&] { M::quiet_type v = m.quiet(); return wifi_us({v.quiet_count, v.quiet_period, v.quiet_duration, v.quiet_offset}); });
+    wifi_typed_item(out, "tpc_report", [&] { std::pair<uint8_t, uint8_t> p = m.tpc_report(); return wifi_us({p.first, p.second}); });
+    wifi_typed_item(out, "erp_information", [&] { return wifi_us({m.erp_information()}); });
+    wifi_typed_item(out, "bss_load", [&] { M::bss_load_type v = m.bss_load(); return wifi_us({v.station_count, v.channel_utilization, v.available_capacity}); });
+    wifi_typed_item(out, "tim", [&] { M::tim_type v = m.tim(); return wifi_us({v.dtim_count, v.dtim_period, v.bitmap_control}) + "_" + vh::to_hex(v.partial_virtual_bitmap); });
+    wifi_typed_item(out, "challenge_text", [&] { std::string s = m.challenge_text(); return vh::to_hex((const uint8_t*)s.data(), s.size()); });
+    wifi_typed_item(out, "vendor_specific", [&] { M::vendor_specific_type v = m.vendor_specific(); return vh::to_hex(v.oui.begin(), 3) + "_" + vh::to_hex(v.data); });
+    return out.empty() ? "-" : out;
+}
+
 inline bool wifi_dump(const PDU& p, std::string& out) {
     FieldDump f;
     switch (p.pdu_type()) {
@@ -114,66 +194,66 @@ inline bool wifi_dump(const PDU& p, std::string& out) {
             const Dot11Beacon& t = static_cast<const Dot11Beacon&>(p);
             dot11_base_dump(f, t); dot11_ext_dump(f, t);
             f.num("timestamp", t.timestamp()).num("interval", t.interval()).num("capabilities", wifi_caps(t.capabilities()));
-            f.str("opts", dot11_opts(t));
+            f.str("opts", dot11_opts(t)).str("typed", wifi_typed(t));
             break;
         }
         case PDU::DOT11_PROBE_RESP: {
             const Dot11ProbeResponse& t = static_cast<const Dot11ProbeResponse&>(p);
             dot11_base_dump(f, t); dot11_ext_dump(f, t);
             f.num("timestamp", t.timestamp()).num("interval", t.interval()).num("capabilities", wifi_caps(t.capabilities()));
-            f.str("opts", dot11_opts(t));
+            f.str("opts", dot11_opts(t)).str("typed", wifi_typed(t));
             break;
         }
         case PDU::DOT11_PROBE_REQ: {
             const Dot11ProbeRequest& t = static_cast<const Dot11ProbeRequest&>(p);
             dot11_base_dump(f, t); dot11_ext_dump(f, t);
-            f.str("opts", dot11_opts(t));
+            f.str("opts", dot11_opts(t)).str("typed", wifi_typed(t));
             break;
         }
         case PDU::DOT11_DIASSOC: {
             const Dot11Disassoc& t = static_cast<const Dot11Disassoc&>(p);
             dot11_base_dump(f, t); dot11_ext_dump(f, t);
-            f.num("reason_code", t.reason_code()).str("opts", dot11_opts(t));
+            f.num("reason_code", t.reason_code()).str("opts", dot11_opts(t)).str("typed", wifi_typed(t));
             break;
         }
         case PDU::DOT11_DEAUTH: {
             const Dot11Deauthentication& t = static_cast<const Dot11Deauthentication&>(p);
             dot11_base_dump(f, t); dot11_ext_dump(f, t);
-            f.num("reason_code", t.reason_code()).str("opts", dot11_opts(t));
+            f.num("reason_code", t.reason_code()).str("opts", dot11_opts(t)).str("typed", wifi_typed(t));
             break;
         }
         case PDU::DOT11_ASSOC_REQ: {
             const Dot11AssocRequest& t = static_cast<const Dot11AssocRequest&>(p);
             dot11_base_dump(f, t); dot11_ext_dump(f, t);
-            f.num("capabilities", wifi_caps(t.capabilities())).num("listen_interval", t.listen_interval()).str("opts", dot11_opts(t));
+            f.num("capabilities", wifi_caps(t.capabilities())).num("listen_interval", t.listen_interval()).str("opts", dot11_opts(t)).str("typed", wifi_typed(t));
             break;
         }
         case PDU::DOT11_ASSOC_RESP: {
             const Dot11AssocResponse& t = static_cast<const Dot11AssocResponse&>(p);
             dot11_base_dump(f, t); dot11_ext_dump(f, t);
             f.num("capabilities", wifi_caps(t.capabilities())).num("status_code", t.status_code()).num("aid", t.aid())
-             .str("opts", dot11_opts(t));
+             .str("opts", dot11_opts(t)).str("typed", wifi_typed(t));
             break;
         }
         case PDU::DOT11_REASSOC_RESP: {
             const Dot11ReAssocResponse& t = static_cast<const Dot11ReAssocResponse&>(p);
             dot11_base_dump(f, t); dot11_ext_dump(f, t);
             f.num("capabilities", wifi_caps(t.capabilities())).num("status_code", t.status_code()).num("aid", t.aid())
-             .str("opts", dot11_opts(t));
+             .str("opts", dot11_opts(t)).str("typed", wifi_typed(t));
             break;
         }
         case PDU::DOT11_REASSOC_REQ: {
             const Dot11ReAssocRequest& t = static_cast<const Dot11ReAssocRequest&>(p);
             dot11_base_dump(f, t); dot11_ext_dump(f, t);
             f.num("capabilities", wifi_caps(t.capabilities())).num("listen_interval", t.listen_interval())
-             .str("current_ap", hex_of(t.current_ap())).str("opts", dot11_opts(t));
+             .str("current_ap", hex_of(t.current_ap())).str("opts", dot11_opts(t)).str("typed", wifi_typed(t));
             break;
         }
         case PDU::DOT11_AUTH: {
             const Dot11Authentication& t = static_cast<const Dot11Authentication&>(p);
             dot11_base_dump(f, t); dot11_ext_dump(f, t);
             f.num("auth_algorithm", t.auth_algorithm()).num("auth_seq_number", t.auth_seq_number())
-             .num("status_code", t.status_code()).str("opts", dot11_opts(t));
+             .num("status_code", t.status_code()).str("opts", dot11_opts(t)).str("typed", wifi_typed(t));
             break;
         }
         case PDU::RC4EAPOL: {
@@ -436,6 +516,35 @@ inline bool dot11_body_apply(Dot11& d, const std::vector<std::string>& op) {
     }
 }
 
+// the text a typed getter must return after its setter was called with the op's arguments
+inline bool wifi_expected(const std::vector<std::string>& op, std::string& name, std::string& text) {
+    if (op.empty()) return false;
+    name = op[0];
+    if (name == "edca_parameter_set" || name == "add_option" || name == "remove_option") return false;   // no getter
+    text.clear();
+    for (size_t i = 1; i < op.size(); ++i) {
+        std::string a = op[i];
+        for (size_t k = 0; k < a.size(); ++k) {
+            if (name == "rsn_information" && (i == 3 || i == 4)) { if (a[k] == ',') a[k] = '+'; }
+            else if (a[k] == ':') a[k] = '.';
+        }
+        if (i > 1) text += "_";
+        text += a;
+    }
+    return true;
+}
+inline std::string wifi_typed_find(const std::string& typed, const std::string& name) {
+    size_t pos = 0;
+    while (pos <= typed.size()) {
+        size_t end = typed.find('|', pos);
+        std::string item = typed.substr(pos, end == std::string::npos ? std::string::npos : end - pos);
+        if (item.compare(0, name.size() + 1, name + ":") == 0) return item;
+        if (end == std::string::npos) break;
+        pos = end + 1;
+    }
+    return "";
+}
+
 inline bool wifi_is_dot11(const PDU& p) {
     return p.matches_flag(PDU::DOT11);
 }
@@ -507,7 +616,16 @@ inline bool wifi_apply(PDU& p, const std::vector<std::string>& op) {
         return true;
     }
     if (Dot11ManagementFrame* m = dynamic_cast<Dot11ManagementFrame*>(&d)) {
-        return dot11_typed_apply(*m, op);
+        // implementation-side C04 oracle: a typed setter called with a representable argument on a frame that has no
+        // such option yet must be read back by its getter as exactly that argument ("getters reflect the edits")
+        std::string name, want;
+        bool check = wifi_expected(op, name, want) && wifi_typed_find(wifi_typed(*m), name).empty();
+        if (!dot11_typed_apply(*m, op)) return false;
+        if (check) {
+            std::string got = wifi_typed_find(wifi_typed(*m), name);
+            if (got != name + ":" + want) throw std::runtime_error("codec-mismatch " + name + " want " + want + " got " + got);
+        }
+        return true;
     }
     return false;
 }
